@@ -152,7 +152,7 @@ def fold(results):
       slot["count"] += v.get("count", 0)
     for k, v in r.get("reach", {}).items():
       slot = merged["reach"].setdefault(k, {"lines_hit": set(), "lines_total": v["lines_total"]})
-      slot["lines_hit"].update(v["lines_hit"])
+      slot["lines_hit"].update(tuple(x) if isinstance(x, list) else x for x in v["lines_hit"])
     for k, v in r.get("sets", {}).items():
       merged["sets"].setdefault(k, set()).update(v)
     merged["harness_errors"].extend(r.get("harness_errors", []))
